@@ -312,3 +312,5 @@ def run(ctx: Context) -> None:
     ctx.isolate(c03.r9_schedule_installs_decision, rule="C12.R6")
     from . import c10
     ctx.isolate(c10.batch_aggregates, rule="C12.R7")
+    from . import c16
+    ctx.isolate(c16.r6_no_raw_time_numbers, rule="C12.R8", files=("workload/strategy.py", "workload/tasks.py", "workload/profile.py", "schedulers/edf_scheduler.py", "schedulers/fifo_scheduler.py", "schedulers/clockwork_scheduler.py", "schedulers/ilp_scheduler.py", "schedulers/tetrisched_gurobi_scheduler.py", "schedulers/tetrisched_cplex_scheduler.py", "schedulers/base_scheduler.py"), floor=30)
